@@ -1,6 +1,7 @@
 import RactorModel.Lemmas.GenAuth
 import RactorModel.Lemmas.Session
 import RactorModel.Lemmas.MultiSession
+import RactorModel.Lemmas.MultiSessionHonest
 import RactorModel.Lemmas.Transitive
 import RactorModel.Extracted
 
@@ -688,6 +689,210 @@ theorem generated_auth_abstraction_onto {D : Type} (s : Auth.Server D) (c : Auth
   ⟨⟨_, absServer_concServer s⟩, ⟨_, absClient_concClient c⟩, ⟨_, absMsg_concMsg m⟩⟩
 end XlateTie
 
+/-! ### E-SRC tie of the model's inertness guards (wave 2, `extract.py: cluster_session_guards`)
+
+`unauthenticated_session_is_inert` rests on three guards of `Model/Session.lean`:
+`handleNode` / `handleControl` start with `if !st.auth.isOk then (st, [])`, and the local-event arms of
+`Session.handle` (`pidSpawn`, `pidTerminate`, `pgChanged`) are guarded by `st.monitoring`, a flag only
+`afterAuthenticated` sets. The Rust arms `PidLifecycleEvent` / `ProcessGroupChanged` of
+`handle_supervisor_evt` carry NO such guard: they are unreachable before authentication because the
+SUBSCRIPTIONS that produce those events are made only in `fn after_authenticated`, which is called
+only on the step on which `state.auth` becomes ok. The theorems below read exactly that off the
+CURRENT `ractor_cluster/src/node/node_session.rs` (non-test, non-`verif` part) on every run.
+
+They are source-SHAPE facts, only as good as the extractor (regexes + brace matching over the
+comment-stripped text; no name resolution, no macro expansion): they say where the calls and guards
+textually are, not what the called functions do. A missing item is extracted as a sentinel
+(`"?"` / `[]`), so the equalities fail rather than hold vacuously. -/
+
+/-- ties `st.monitoring` of `Session.handle` (= "`after_authenticated` ran"): in node_session.rs every
+call of a function named `monitor` / `monitor_scope` (any path, also as a method; `demonitor*` are not
+counted) sits in `fn after_authenticated`, and there are exactly the three subscriptions the model's
+`afterAuthenticated` stands for (its `Effect.monitor`: pid registry, all pg scopes, all pg groups). The
+ping loop (same `Effect.monitor`) is likewise started from `after_authenticated` only. So before
+`after_authenticated` has run, nothing makes the runtime deliver a `PidLifecycleEvent` or a
+`ProcessGroupChanged` to the session. Source-shape fact, only as good as the extractor. -/
+theorem monitors_are_installed_only_by_after_authenticated :
+    Extracted.sessionMonitorCalls =
+      [("pid_registry::monitor", "after_authenticated"), ("pg::monitor_scope", "after_authenticated"),
+       ("pg::monitor", "after_authenticated")] ∧
+    Extracted.sessionMonitorCalls.length = 3 ∧
+    (∀ c ∈ Extracted.sessionMonitorCalls, c.2 = "after_authenticated") ∧
+    Extracted.sessionPingLoopStarts =
+      [("start_ping_loop", "after_authenticated"), ("start_ping_loop_with_delay", "start_ping_loop")] := by
+  decide
+
+/-- ties `onAuthFrame` of `Model/Session.lean` (`if !p && r.1.auth.isOk then … afterAuthenticated`),
+the only place where the model sets `monitoring := true`: the ONLY call of `after_authenticated(` in
+node_session.rs is in `Actor::handle`, in the `Auth` arm of `match network_message` (itself in the
+`MessageReceived` arm), inside `if !p_state && state.auth.is_ok()` and then `if elected`; and in that
+arm `p_state` is `state.auth.is_ok()` read BEFORE `self.handle_auth(..)` runs. So it runs only on the
+step on which the session becomes authenticated. Source-shape fact, only as good as the extractor. -/
+theorem after_authenticated_is_called_only_on_the_authenticating_step :
+    Extracted.afterAuthenticatedCalls =
+      [("handle",
+        ["match message", "arm MessageReceived if state.tcp.is_some()",
+         "if let Some(network_message) = maybe_network_message.message",
+         "match network_message", "arm Auth",
+         "if !p_state && state.auth.is_ok()", "if elected"])] ∧
+    (∀ c ∈ Extracted.afterAuthenticatedCalls,
+      c.1 = "handle" ∧ "if !p_state && state.auth.is_ok()" ∈ c.2 ∧ "arm Auth" ∈ c.2) ∧
+    Extracted.afterAuthenticatedGuardPrefix =
+      ["let p_state = state.auth.is_ok()", "self.handle_auth(state, auth_message, myself.clone()).await"] := by
+  decide
+
+/-- ties the first line of the model's `handleNode` and `handleControl` (`if !st.auth.isOk then (st, [])`):
+the first statement of `fn handle_node` and of `fn handle_control` is `if !state.auth.is_ok() { … }`
+whose block is one log line followed by `return` (string literals blanked by the extractor).
+Source-shape fact, only as good as the extractor. -/
+theorem node_and_control_handlers_return_first_when_unauthenticated :
+    Extracted.sessionFirstGuards =
+      [("handle_node", "!state.auth.is_ok()", "tracing::warn!(\"\"); return;"),
+       ("handle_control", "!state.auth.is_ok()", "tracing::warn!(\"\"); return Ok(());")] := by
+  decide
+
+/-- ties the shape of `Session.handle` / `In`: the arms of `NodeSession::handle`, of its inner
+`match network_message` (with the `self.` methods each arm calls) and of `handle_supervisor_evt` are
+the modelled ones. A NEW arm — a new message kind that could have an effect before authentication —
+or an arm that calls another handler changes these tables. (`SendMessage`, `GetAuthenticationState`,
+`GetReadyState` are sent by local actors, not by the peer; `ActorStarted` / `ActorFailed` /
+`ActorTerminated` concern the session's own children.) Source-shape fact, only as good as the extractor. -/
+theorem session_handler_arms_are_the_modelled_ones :
+    Extracted.sessionHandleArms =
+      [("MessageReceived", "state.tcp.is_some()"), ("SendMessage", "state.tcp.is_some()"),
+       ("GetAuthenticationState", ""), ("GetReadyState", ""), ("_", "")] ∧
+    Extracted.sessionNetworkArms =
+      [("Auth", "handle_auth,after_authenticated"), ("Node", "handle_node"), ("Control", "handle_control")] ∧
+    Extracted.sessionSupervisorArms =
+      [("ActorStarted", ""), ("ActorFailed", ""), ("ActorTerminated", ""),
+       ("ProcessGroupChanged", ""), ("PidLifecycleEvent", "")] := by
+  decide
+
+/-! ## round 4, wave 2: honest peers AND a cookie-less adversary on the same node
+
+`Model/MultiSessionHonest.lean`: the sessions of the node are split by `adv : Nat → Bool`.
+THREAT MODEL: an honest peer (`adv k = false`) knows the cookie and its inputs are completely
+unconstrained; the adversary (`adv k = true`) does not know the cookie, sees every frame the node
+sends on the sessions IT terminates and may replay any of it on any of its sessions at any later
+time; it does NOT see the honest peers' traffic (it is an end point, not a wire-tapper). Any number
+of sessions of both kinds, either direction, opened at any time, inputs interleaved in any order.
+-/
+
+section
+open Multi
+variable {C D : Type} [DecidableEq D] (H : C → Nat → D)
+
+/-- (who gets in) For every run with any number of honest peers and an adversary: a step that
+authenticates a session is a step of an honest peer's session, or it presents a digest the node
+ITSELF emitted earlier on one of the adversary's sessions (`j`, with `adv j`) — the reflection of
+finding F11, recognised by the decidable classifier `hasReflectedDigest` on the adversary's view.
+Nothing the node sent to honest peers, and nothing the adversary can compute, gets it in.
+(`j` may be the same session only if the node's drawn challenge collides with the peer-chosen one:
+`Env.fresh` is arbitrary here.) -/
+theorem authenticated_session_is_honest_or_reflected (adv : Nat → Bool) (cookie cookie' : C)
+    (hsep : ∀ c c', H cookie' c' ≠ H cookie c)
+    (pre post : List (Op D)) (k : Nat) (env : Env) (i : In D)
+    (hl : advLegal H adv cookie' (Multi.empty cookie : Node C D) [] (pre ++ .input k env i :: post))
+    (cfg : Cfg C) (st : SState D)
+    (hk : (nodeAfter H (Multi.empty cookie : Node C D) pre).sessions[k]? = some (cfg, st))
+    (hno : st.auth.isOk = false) (hok : (handle H cfg st env i).1.auth.isOk = true) :
+    adv k = false ∨
+    (hasReflectedDigest (advView H adv (Multi.empty cookie : Node C D) [] pre) i = true ∧
+      ∃ d j, digestOf i = some d ∧ adv j = true ∧
+        (j, d) ∈ advView H adv (Multi.empty cookie : Node C D) [] pre) := by
+  cases hadv : adv k
+  · exact Or.inl rfl
+  · right
+    have hinv := inv_nodeAfter H pre _ (empty_inv H cookie)
+    have hm : (cfg, st) ∈ (nodeAfter H (Multi.empty cookie : Node C D) pre).sessions := List.mem_of_getElem? hk
+    obtain ⟨hc, hw⟩ := hinv _ hm
+    rw [nodeAfter_cookie] at hc hw
+    have hc' : cfg.cookie = cookie := hc
+    have hp := (handle_facts H cfg st env i).okNeeds (by rw [hc']; exact hw) hno hok
+    obtain ⟨d, c, hd, hdc⟩ := presents_digest H hp
+    have hl' := (advLegal_split H adv cookie' pre _ _ _ post hl).1 hadv d hd
+    rcases hl' with ⟨j, hj⟩ | ⟨c', hc2⟩
+    · have haj := advView_adv H adv pre _ [] (by intro p hp; simp at hp) _ hj
+      refine ⟨?_, d, j, hd, haj, hj⟩
+      unfold hasReflectedDigest
+      rw [hd]
+      exact List.any_eq_true.mpr ⟨(j, d), hj, by simp⟩
+    · exact absurd (by rw [← hc2, hdc, hc']) (hsep c c')
+
+/-- (the node never dials the adversary ⇒ the adversary never gets in) If every session of the
+adversary is INBOUND (server-side on the node: `advInbound`), then in every run — any number of
+honest peers authenticating and talking meanwhile on inbound or outbound sessions, any
+interleaving, any replay —: at every point of the run the adversary has not seen a single digest,
+none of its sessions is authenticated, and no step of one of its sessions has a gated effect
+(no delivery, no proxy, no group change, not listed, no monitor, no transitive dial).
+Reason: a server-side session emits its only digest (`ChallengeAck`) in the step that
+authenticates it. Checked against the real `NodeServer`: engine `e-lts` relay variants 4/5 (two
+inbound sessions: nothing to relay) and oracle clause `reflected-digest-accepted-with-inbound-sessions-only`. -/
+theorem inbound_only_adversary_is_never_authenticated (adv : Nat → Bool) (cookie cookie' : C)
+    (hsep : ∀ c c', H cookie' c' ≠ H cookie c) (pre post : List (Op D))
+    (hl : advLegal H adv cookie' (Multi.empty cookie : Node C D) [] (pre ++ post))
+    (hin : advInbound adv 0 (pre ++ post) = true) :
+    advView H adv (Multi.empty cookie : Node C D) [] pre = [] ∧
+    (∀ k cfg st, adv k = true →
+      (nodeAfter H (Multi.empty cookie : Node C D) pre).sessions[k]? = some (cfg, st) →
+      st.auth.isOk = false) ∧
+    (∀ k env i rest, post = .input k env i :: rest → adv k = true →
+      ∀ e ∈ (step H (nodeAfter H (Multi.empty cookie : Node C D) pre) (.input k env i)).2, e.gated = false) := by
+  have hr := advQuiet_run H adv cookie' pre (Multi.empty cookie : Node C D) [] post hsep
+    (empty_advQuiet H adv cookie) hl hin
+  obtain ⟨⟨hinv, hadv, hview⟩, hl2, hin2⟩ := hr
+  refine ⟨hview, fun k cfg st hk hget => (hadv k cfg st hk hget).2, ?_⟩
+  intro k env i rest hpost hk
+  subst hpost
+  have hsep' : ∀ c c', H cookie' c' ≠ H (nodeAfter H (Multi.empty cookie : Node C D) pre).cookie c := by
+    rw [nodeAfter_cookie]; exact hsep
+  have hi := advInbound_cons H adv _ (.input k env i) rest hin2
+  exact (advQuiet_step H adv cookie' _ _ (.input k env i) hsep' ⟨hinv, hadv, hview⟩ ⟨hl2.1, trivial⟩ hi.1).2
+    k env i rfl hk
+
+/-- non-vacuity: an honest peer (session 0, inbound; session 2, outbound — it knows cookie 7) completes
+both handshakes and casts to actor 3 while the adversary (sessions 1 and 3, both inbound, own
+cookie 8) guesses, replays a challenge and tries to use its sessions: the hypotheses of
+`inbound_only_adversary_is_never_authenticated` hold, the honest sessions ARE authenticated, the
+adversary's are not. -/
+def honestAndAdversaryOps : List (Op (Nat × Nat)) :=
+  [ .open true "v@h" "h:1" false 0,
+    .open true "v@h" "h:1" false 0,
+    .open false "v@h" "h:1" false 99,
+    .open true "v@h" "h:1" false 0,
+    .input 0 (envR 5) (.frame (.auth (.name ⟨"good@h", "gc", 1⟩))),
+    .input 1 (envR 6) (.frame (.auth (.name ⟨"evil@h", "pc", 1⟩))),
+    .input 0 (envR 0) (.frame (.auth (.clientChallenge 9 (pairH 7 5)))),
+    .input 2 (envR 0) (.frame (.auth (.serverStatus 0))),
+    .input 2 (envR 4) (.frame (.auth (.serverChallenge "good2@h" "gc2" 6))),
+    .input 1 (envR 0) (.frame (.auth (.clientChallenge 6 (pairH 8 6)))),
+    .input 3 (envR 6) (.frame (.auth (.name ⟨"evil2@h", "pc", 1⟩))),
+    .input 2 (envR 0) (.frame (.auth (.serverAck (pairH 7 4)))),
+    .input 3 (envR 0) (.frame (.auth (.serverChallenge "evil2@h" "pc" 6))),
+    .input 0 (envR 0) (.frame (.node (.cast 3))),
+    .input 1 (envR 0) (.frame (.node (.cast 3))) ]
+
+def advOdd (k : Nat) : Bool := k % 2 == 1
+
+example : advInbound advOdd 0 honestAndAdversaryOps = true := by decide
+example : (nodeAfter pairH (Multi.empty 7 : Node Nat (Nat × Nat)) honestAndAdversaryOps).sessions.map (·.2.auth.isOk)
+    = [true, false, true, false] := by decide
+example : Effect.deliverLocal 3 false ∈
+    (Multi.run pairH (Multi.empty 7 : Node Nat (Nat × Nat)) honestAndAdversaryOps).flatMap (·.2) := by decide
+/-- the node did send digests of the real cookie in that run (to the honest peer) — none to the adversary -/
+example : (nodeAfter pairH (Multi.empty 7 : Node Nat (Nat × Nat)) honestAndAdversaryOps).seen
+    = [pairH 7 9, pairH 7 6] ∧
+    advView pairH advOdd (Multi.empty 7 : Node Nat (Nat × Nat)) [] honestAndAdversaryOps = [] := by decide
+
+/-- … and the F11 run is the other branch of `authenticated_session_is_honest_or_reflected`: both
+sessions belong to the adversary, one is outbound, and the authenticating inputs are classified as
+reflected digests. -/
+example : advInbound (fun _ => true) 0 reflectionOps = false ∧
+    hasReflectedDigest (advView pairH (fun _ => true) (Multi.empty 7 : Node Nat (Nat × Nat)) [] (reflectionOps.take 5))
+      (.frame (.auth (.clientChallenge 6 (pairH 7 5)))) = true := by decide
+
+end
+
 end C17
 
 #print axioms C17.fsm_close_absorbing
@@ -716,3 +921,11 @@ end C17
 #print axioms C17.generated_server_next_eq_model
 #print axioms C17.generated_client_next_eq_model
 #print axioms C17.generated_auth_abstraction_onto
+-- E-SRC tie of the inertness guards (wave 2)
+#print axioms C17.monitors_are_installed_only_by_after_authenticated
+#print axioms C17.after_authenticated_is_called_only_on_the_authenticating_step
+#print axioms C17.node_and_control_handlers_return_first_when_unauthenticated
+#print axioms C17.session_handler_arms_are_the_modelled_ones
+-- honest peers + adversary, inbound-only adversary (wave 2)
+#print axioms C17.authenticated_session_is_honest_or_reflected
+#print axioms C17.inbound_only_adversary_is_never_authenticated
